@@ -74,3 +74,8 @@ add('C02', 'exploration', 'whole-text-image differ + reference model after every
     'Histories over 18 adjacent targets and 1-3 builders are executed through the public API; after every single step the complete executable image is compared with its pristine copy (differences must be well-formed entry jumps of currently mocked targets or lie in used placeholders) and all targets plus neighbours are called and compared with the model; all histories up to length 3/4 over a 2x2 alphabet are enumerated. Random histories are sampled; the small alphabet is exhaustive to the stated length.',
     'When two builders touch the same target only the unambiguous clauses are asserted (own target restored by own Reset/Cancel; everything pristine once nobody holds it; bytes always pristine or a well-formed jump).',
     'DESIGN.md 2 C02')
+
+add('C06', 'exploration', 'all-pairs isolation monitor: every generated method mocked in turn, every method of every type called through 5 forms on 3 instances',
+    'For each method of the generated corpus (per seed) the mock is installed through the public lookup path its kind needs, with Apply (receiver identity recorded) and Return, and the whole corpus is then called and compared with the model (mocked value / original); plus generic instantiations of equal and different GC shape and same-named types in one builder. The corpus is generated per seed (sampled type space), all (mocked, observed) pairs within it are covered.',
+    'Same-GC-shape instantiations are excluded from the unaffected set as the statement allows; for pointer-receiver methods called on a copy the receiver identity is not compared.',
+    'DESIGN.md 2 C06')
